@@ -142,6 +142,15 @@ def with_unrenderable(draw, programs):
   return prog
 
 
+@st.composite
+def with_unknown_node(draw, programs):
+  """One program in twenty gets a node of a type the executor does not know, somewhere before its last top-level node."""
+  prog = draw(programs)
+  if len(prog['nodes']) >= 2 and draw(st.integers(0, 19)) == 0:
+    prog['nodes'].insert(draw(st.integers(0, len(prog['nodes']) - 1)), {'t': 'custom', 'id': 9000})
+  return prog
+
+
 def plan(tier, seed):
   jobs = []
   n = 500 if tier == 'quick' else 9000
@@ -162,7 +171,7 @@ def run_job(job, acct):
     from vf import runner  # pylint: disable=g-import-not-at-top
     runner.run_regress(sys.modules[__name__], job, acct)
   elif job['kind'] == 'hyp':
-    hyp.search(acct, with_unrenderable(progs.programs(strict=job['strict'], with_test_start=True)), check,
+    hyp.search(acct, with_unknown_node(with_unrenderable(progs.programs(strict=job['strict'], with_test_start=True))), check,
                seed=job['hseed'], max_examples=job['n'], known=known)
   elif job['kind'] == 'enum':
     for i, base in enumerate(progs.enumerate_programs(job['k'], job['maxdepth'])):
